@@ -81,6 +81,25 @@ let parse_op (t : string list) : op =
   | [ "GobRoundTrip"; z; x ] -> OGobRoundTrip (v z, v x)
   | _ -> failwith ("unknown op: " ^ String.concat " " t)
 
+let parse_cop (t : string list) : cop =
+  match t with
+  | [ "CAdd"; z; x; y ] -> CAdd (v z, v x, v y)
+  | [ "CSub"; z; x; y ] -> CSub (v z, v x, v y)
+  | [ "CMul"; z; x; y ] -> CMul (v z, v x, v y)
+  | [ "CQuo"; z; x; y ] -> CQuo (v z, v x, v y)
+  | [ "CFMA"; z; x; y; u ] -> CFMA (v z, v x, v y, v u)
+  | [ "CNeg"; z; x ] -> CNeg (v z, v x)
+  | [ "CAbs"; z; x ] -> CAbs (v z, v x)
+  | [ "CSet"; z; x ] -> CSet (v z, v x)
+  | [ "CErr" ] -> CErr
+  | [ "CSetPrec"; p ] -> CSetPrec (zs p)
+  | [ "CSetMode"; m ] -> CSetMode (mode_of m)
+  | [ "CNew"; z ] -> CNew (v z)
+  | [ "CNewInt64"; z; x ] -> CNewInt64 (v z, zs x)
+  | [ "CNewUint64"; z; x ] -> CNewUint64 (v z, zs x)
+  | [ "CNilOperand"; z ] -> CNilOperand (v z)
+  | _ -> CPlain (parse_op t)
+
 let print_dec buf (d : dec) =
   Buffer.add_string buf
     (Printf.sprintf " | %s %d %s %s %s" (form_s d.dform) (if d.neg then 1 else 0)
@@ -102,17 +121,22 @@ let process_line (line : string) =
   match parts with
   | [] -> ()
   | pid :: items ->
-      let vars = ref [] and ops = ref [] and names = ref [] in
+      let vars = ref [] and ops = ref [] and names = ref [] and cx = ref None in
       List.iter
         (fun it ->
           match split_on ' ' it with
           | "V" :: t -> vars := parse_var t :: !vars
-          | "O" :: t -> ops := parse_op t :: !ops; names := List.hd t :: !names
+          | "O" :: t -> ops := t :: !ops; names := List.hd t :: !names
+          | [ "C"; p; m ] -> cx := Some (ctx_new (zs p) (mode_of m))
           | [] -> ()
           | _ -> failwith ("bad item: " ^ it))
         items;
-      let s0 = List.rev !vars and p = List.rev !ops and names = List.rev !names in
-      let rs = run s0 p in
+      let s0 = List.rev !vars and toks = List.rev !ops and names = List.rev !names in
+      let rs =
+        match !cx with
+        | None -> run s0 (List.map parse_op toks)
+        | Some c -> List.map (fun (r, (s, _)) -> (r, s)) (crun (s0, c) (List.map parse_cop toks))
+      in
       let buf = Buffer.create 256 in
       List.iteri
         (fun i ((r : result), (s : store)) ->
